@@ -719,7 +719,15 @@ class CtlRun(object):
         if l.behaviour == 'remove-self':
             self.remove_listener(l, eid)
         elif l.behaviour == 'remove-other':
-            if l.target < len(self.listeners):
+            # preferably a listener for the same event that has not been reached yet in this delivery (it was registered
+            # when the event arrived, so it still hears this one); else the listener drawn at registration
+            later = [x for x in self.listeners if x.registered and x.name == l.name and x.lid > l.lid and
+                     (eid is None or getattr(x, 'min_eid', 0) <= eid) and
+                     not any(e == eid and lid == x.lid for e, lid, p in self.step_calls)]
+            if later and l.target % 2 == 0:
+                sim.probe('listener-removes-a-later-listener-of-the-same-event-during-delivery')
+                self.remove_listener(later[0], eid)
+            elif l.target < len(self.listeners):
                 self.remove_listener(self.listeners[l.target], eid)
         elif l.behaviour == 'add-other':
             # registers a follow-up listener for the same event from inside the delivery (once)
@@ -751,7 +759,8 @@ class CtlRun(object):
             ev['inflight'] = self.cmds[ri].kind if ri < len(self.cmds) else None
             removed = set(l for e, l in self.step_removed if e == ev['eid'])
             may = list(S.get(name, []))
-            must = [l for l in may if l not in removed]
+            must = list(may)    # "every listener registered for that event name at that moment": also one that an earlier
+            # listener unsubscribes while this event is being delivered (it hears no later one)
             calls = [(lid, p) for e, lid, p in self.step_calls if e == ev['eid']]
             got = [lid for lid, p in calls]
             if ev['inflight'] in ('incr', 'rawcb'):
@@ -786,11 +795,12 @@ class CtlRun(object):
                                      ev['eid'], ev['form'], ev['inflight'], lid, p, sorted(ev['payloads'])))
                     sim.fail('C02.event-payload-mismatch', 'event %d payload %r, expected one of %r' % (
                         ev['eid'], p, sorted(ev['payloads'])))
-            for nm in list(S):
-                S[nm] = [l for l in S[nm] if l not in removed]
             for e, lid, nm in self.step_added:
                 if e == ev['eid']:
                     S.setdefault(nm, []).append(lid)
+            for nm in list(S):
+                # (after the additions: a listener added and removed again inside one delivery is gone)
+                S[nm] = [l for l in S[nm] if l not in removed]
 
     # ------------------------------------------------------------------ C03 ops
     def op_when_disconnected(self):
